@@ -8,6 +8,7 @@ import Proofs.Lemmas.IntrinsicParse
 import Proofs.Lemmas.Functions
 import Proofs.Lemmas.Format
 import Proofs.Lemmas.JsonRoundTrip
+import Proofs.Lemmas.Base64RoundTrip
 namespace Asl.C13
 open Asl
 
@@ -249,6 +250,25 @@ theorem json_roundtrip_call (o : Oracles) (input ctx : Json) (a : Arg) (x : Json
 theorem json_roundtrip_dedup (o : Oracles) (x : Json) :
     applyFn o "States.StringToJson".toList [.str (render x)] = .ok (normalise x) := by
   simp [applyFn, fnStringToJson, leadingZero_render x, parseJson_render_any x]
+
+/-- `States.Base64Decode(States.Base64Encode(s)) = s` for every string `s` — any length
+(all three padding cases), any characters (all four UTF-8 length classes up to U+10FFFF) —
+through the strict decoder (groups of four, alphabet check, padding only at the end, strict
+UTF-8). -/
+theorem base64_roundtrip (o : Oracles) (s : Str) :
+    applyFn o "States.Base64Encode".toList [.str s] = .ok (.str (b64Enc (utf8Str s))) ∧
+    applyFn o "States.Base64Decode".toList [.str (b64Enc (utf8Str s))] = .ok (.str s) := by
+  have ⟨h1, h2⟩ := fnBase64_roundtrip s
+  exact ⟨by simp [applyFn, h1], by simp [applyFn, h2]⟩
+
+/-- the same as a nested call in a template -/
+theorem base64_roundtrip_call (o : Oracles) (input ctx : Json) (a : Arg) (s : Str)
+    (ha : evalArg o input ctx a = .ok (.str s)) :
+    evalArg o input ctx
+      (.call "States.Base64Decode".toList [.call "States.Base64Encode".toList [a]]) =
+        .ok (.str s) := by
+  have ⟨h1, h2⟩ := base64_roundtrip o s
+  simp only [evalArg, evalArgs, ha, h1, h2]
 
 /-! ## clean failure -/
 
